@@ -474,7 +474,8 @@ INFINITE = re.compile(r"Repeat|Cycle|RepeatWith|FromFn|Successors|RangeFrom|iter
 def r3(ctx, prog, ev, rep):
     rep.rule("C08-R3", "every loop terminates by form: (A) driven by Iterator::next on a finite source and left on None, or (B) a "
              "counter loop `while x cmp bound` with one unconditional `x += d` per iteration, d and bound loop-invariant, and the "
-             "sign of d (from the enclosing guard) pointing toward the exit", floor=14)
+             "sign of d (from the enclosing guard) pointing toward the exit; every iterator pipeline drained by a consuming sink "
+             "(collect, fold, any, all, count, ...) has a finite source in its adaptor-stack type", floor=45)
     reach, tops = reach_tops(prog)
     n = 0
     for p in tops:
@@ -496,6 +497,24 @@ def r3(ctx, prog, ev, rep):
             ok, why = classify_loop(prog, ev, p, s)
             rep.check(ok, "C08-R3", key, T.loc(node), why, "loop is not in a terminating form: %s" % why)
     rep.extra["loops"] = n
+    # iterator pipelines drained by a consuming sink: the adaptor stack's type must bottom out in a finite source
+    from vflib import pipeline as PL
+    ns = 0
+    for p in sorted(reach):
+        if prog.is_expansion(p):
+            continue
+        for x in T.walk(prog.bodies[p]["thir"]["root"]):
+            if x.get("k") == "Call" and PL.is_iter_call(x.get("fn") or "") and PL.classify(PL.method_name(x["fn"])) == "sink" \
+                    and PL.method_name(x["fn"]) not in ("next", "nth", "peek", "next_back") and x.get("args"):
+                ity = (T.strip(x["args"][0]).get("ty") or "?")
+                ns += 1
+                idx = sum(1 for k in rep.instances if k["rule"] == "C08-R3" and k["key"].startswith(p + "|sink"))
+                opaque = re.search(r"(^|[<, (&])(impl |dyn )", ity) is not None or re.fullmatch(r"(&mut )?[A-Z]\w*", ity) is not None
+                good = not INFINITE.search(ity) and not opaque and ity != "?"
+                rep.check(good, "C08-R3", "%s|sink#%d:%s" % (p, idx, PL.method_name(x["fn"])), T.loc(x),
+                          "%s over %s" % (PL.method_name(x["fn"]), re.sub(r"\{closure[^}]*\}", "{closure}", ity)[:90]),
+                          "`%s` drains `%s`: %s" % (PL.method_name(x["fn"]), ity[:160], "an unbounded iterator source" if INFINITE.search(ity) else "the source of the iterator is not visible in its type"))
+    rep.extra["iterator_sinks"] = ns
     # positive control: infinite loops in the fixture are rejected
     fx = ctx.fixture
     fev = Evaluator(fx)
